@@ -289,8 +289,9 @@ def step_reported(ctx, fu):
         rec = [e for e in t.calls("append") if e.name.startswith("running_state") and e.args and e.args[0] == "dt"]
         if len(rec) != 1 or render(rec[0].args[1]) != last:
             bad_rec.append(f"[{tag}] records {[render(e.args[1]) for e in rec]}, the accepted solve used {last}")
-        val = t.outcome[1]
-        first = val.parts[2][0] if getattr(val, "parts", None) and val.parts[0] == "call" and val.parts[2] else val.parts[3].get("dt") if getattr(val, "parts", None) else None
+        from ..update_trace import result_fields
+        rf = result_fields(t.outcome[1])
+        first = rf[0] if rf else None
         if render(first) != last:
             bad_ret.append(f"[{tag}] returns dt = {render(first)}, the accepted solve used {last}")
     if n < 100:
